@@ -24,8 +24,8 @@ pub fn def() -> PropDef {
     panic_policy: PanicPolicy::Violation,
     rule: "exhaustive sweep first: every single-field delta d with |d| < 2^12 (quick) / 2^20 (thorough) plus all values 2^k-1, 2^k, 2^k+1 up to 2^30, in each of the five fields and both signs (negative generated-column deltas through reference-encoded strings), encoded by the crate and decoded by crate + reference, and reference-encoded then decoded by the crate; then random sorted sequences (1-/4-/5-field segments, empty lines, gaps, values to 2^30, digit-boundary values), reference-spelled strings with redundant continuation digits / empty segments / backward columns / ';' runs, and the lines-only encoder; non-trivial = case exercised >= 2 mapped segments with a value >= 32 (multi-digit VLQ); distinct = case fingerprint",
     cases: |t| match t {
-      Tier::Quick => 60_000,
-      Tier::Thorough => 1_500_000,
+      Tier::Quick => 200_000,
+      Tier::Thorough => 3_000_000,
     },
   }
 }
